@@ -48,7 +48,7 @@ def run(chk, replay=None):
     chk.cov["inv_mod_err"] = sum(1 for e in evs if e["op"] == "inv_mod" and e.get("ok") is False)
     chk.cov["inv_mod_ok"] = sum(1 for e in evs if e["op"] == "inv_mod" and e.get("ok") is True)
     for o in ("gcd", "inv_mod", "zn_inv", "zn_gcd"):
-        if o not in ops and not replay:
+        if o not in ops and not replay and not res["rejects"]:  # (a run cut short by hung calls reports those first)
             raise core.ToolError("no %s event" % o)
     for e in evs[:: max(1, len(evs) // 5)]:
         chk.sample({k: e[k] for k in e if k in ("op", "case", "shape", "N")})
